@@ -237,13 +237,13 @@ template <class Compare, class Combine> static void RunSort(const Case &c, const
     chain >> Putter(&data, &counts, c.rs);
     Sort<Compare, Combine> sorter(chain, sc, compare, combine);
     chain.Wait(true);
+    // as lmplz does (lm/builder/pipeline.cc:93-98): read the stolen file through a chain with PRead
     util::scoped_fd fd(sorter.StealCompleted());
-    uint64_t size = util::SizeOrThrow(fd.get());
-    out.resize(size);
-    if (size) util::ErsatzPRead(fd.get(), &out[0], size, 0);
+    Chain outc(ChainConfig(c.rs, c.cbc == 1 ? 2 : c.cbc, std::max<uint64_t>(c.cmem, c.rs * (c.cbc == 1 ? 2 : c.cbc))));
+    outc >> PRead(fd.release(), true);
+    Drain(outc, out);
     mret = "0";
     lazy_used = "0";
-    g_oblocks = "-";
   } else {
     Chain chain(cc);
     chain >> Putter(&data, &counts, c.rs);
